@@ -32,10 +32,30 @@ Record sstep := mk_sstep {
   ss_snapshot : option tree;          (* tree returned by a snapshot right afterwards *)
 }.
 
+(** A step of a session run inside ONE locked working copy (no reload between the steps):
+    every step records the tree and the patterns the real object reported before it. *)
+Inductive sess_step :=
+| SeSparse (s : sstep) (recorded_after : list path)
+    (* set_sparse_patterns + a snapshot right after; the patterns recorded afterwards *)
+| SeSnap (t : tree) (sp : list path) (d : fs) (r : option tree)
+    (* a snapshot (not starting to track new files) of the disk [d] *)
+| SeCheckout (t : tree) (sp : list path) (d0 : fs) (t2 : tree) (res : result)
+             (tr : list (N * path)) (d1 : fs).
+
 Record case := mk_case {
   c_untracked : fs;                   (* the workspace before the tree was checked out *)
   c_steps : list sstep;
+  c_session : list sess_step;
 }.
+
+(** Every file or link that appeared, disappeared or changed is inside the patterns. *)
+Definition inside_b (m : path -> bool) (d0 d1 : fs) : bool :=
+  forallb (fun qe => option_eqb entry_eqb (lookup d0 (fst qe)) (lookup d1 (fst qe))
+                     || negb (is_leaf (lookup d0 (fst qe)) || is_leaf (lookup d1 (fst qe)))
+                     || m (fst qe)) (d0 ++ d1).
+
+(** The declarative snapshot that does not start tracking new files. *)
+Definition snap_model (d : fs) (sp : list path) (t : tree) : tree := snap_sparse d (matches sp) t.
 
 (** Tracked paths outside the patterns keep their value in the snapshot. *)
 Definition outside_kept (m : path -> bool) (t : tree) (snapshot : option tree) : bool :=
@@ -74,7 +94,22 @@ Definition sstep_ok (u : fs) (s : sstep) : bool :=
      | _ => negb (ss_clean s)
      end.
 
-Definition okb (c : case) : bool := forallb (sstep_ok (c_untracked c)) (c_steps c).
+(** Inside a session: set_sparse_patterns as above and the new patterns are the recorded
+    ones; a snapshot keeps every tracked path outside the CURRENT patterns; a checkout
+    changes files only inside the CURRENT patterns and only what the diff owns. *)
+Definition sess_ok (u : fs) (st : sess_step) : bool :=
+  match st with
+  | SeSparse s after =>
+      sstep_ok u s
+      && list_eqb path_eqb after (match ss_res s with ROk _ => ss_new s | _ => ss_old s end)
+  | SeSnap t sp d r => outside_kept (matches sp) t r
+  | SeCheckout t sp d0 t2 res tr d1 =>
+      let dd := diff_fs (matches sp) t t2 in
+      untouched_b dd d0 d1 && confined_b dd d0 d1 && inside_b (matches sp) d0 d1
+  end.
+
+Definition okb (c : case) : bool :=
+  forallb (sstep_ok (c_untracked c)) (c_steps c) && forallb (sess_ok (c_untracked c)) (c_session c).
 
 (** Hypotheses of the exact-delta theorem on clean steps. *)
 Definition pre_ok (c : case) : bool :=
@@ -88,12 +123,25 @@ Definition pre_ok (c : case) : bool :=
                                        (ss_disk0 s)))
              (c_steps c).
 
-(** The model on one step. *)
-Definition sstep_corr (s : sstep) : bool :=
+(** The model on one step ([with_states] = false inside a session, where the file states
+    of the locked object are not observable). *)
+Definition sstep_corr_gen (with_states : bool) (s : sstep) : bool :=
   let '(o, w') := set_sparse rn (ss_disk0 s) (mkWc (ss_tree s) (ss_states0 s) (ss_old s)) (ss_new s) in
   result_eqb (o_res o) (ss_res s) && fs_eqb (o_fs o) (ss_disk1 s)
-  && states_eqb (o_states o) (ss_states1 s) && forallb ev_safe (o_trace o)
+  && (negb with_states || states_eqb (o_states o) (ss_states1 s)) && forallb ev_safe (o_trace o)
   && list_eqb (pair_eqb N.eqb path_eqb) (visible_trace (o_trace o)) (ss_trace s).
+Definition sstep_corr : sstep -> bool := sstep_corr_gen true.
+
+(** The model on a session step: it always uses the patterns that are current. *)
+Definition sess_corr (st : sess_step) : bool :=
+  match st with
+  | SeSparse s after => sstep_corr_gen false s
+  | SeSnap t sp d r => option_eqb tree_same r (Some (snap_model d sp t))
+  | SeCheckout t sp d0 t2 res tr d1 =>
+      let '(o, w') := check_out rn d0 (mkWc t [] sp) t2 in
+      result_eqb (o_res o) res && fs_eqb (o_fs o) d1 && forallb ev_safe (o_trace o)
+      && list_eqb (pair_eqb N.eqb path_eqb) (visible_trace (o_trace o)) tr
+  end.
 
 (** Known-finding class "sparse-removal-skipped-assert": the removal pass of
     set_sparse_patterns skips a path (a parent component of a file leaving the patterns is
@@ -114,12 +162,13 @@ Definition removal_skipped (s : sstep) : bool :=
   | _ => false
   end.
 Definition known_class (c : case) : bool :=
-  existsb (fun s => result_eqb (ss_res s) RPanic && removal_skipped s) (c_steps c).
+  existsb (fun s => result_eqb (ss_res s) RPanic && removal_skipped s)
+          (c_steps c ++ flat_map (fun st => match st with SeSparse s _ => [s] | _ => [] end) (c_session c)).
 
 End Reserved.
 
 (** detail: 1 a step disagrees with the model, 2 hypotheses *)
 Definition check_case_rn (rn : list name) (c : case) : N :=
-  let ok_steps := forallb (sstep_corr rn) (c_steps c) in
+  let ok_steps := forallb (sstep_corr rn) (c_steps c) && forallb (sess_corr rn) (c_session c) in
   let ok_pre := pre_ok rn c in
   verdict (ok_steps && ok_pre) (okb c) (known_class rn c) (if negb ok_steps then 1 else 2)%N.
